@@ -14,6 +14,7 @@ import (
 
 	"github.com/anz-bank/sysl/pkg/cmdutils"
 	"github.com/anz-bank/sysl/pkg/integrationdiagram"
+	mermaidints "github.com/anz-bank/sysl/pkg/mermaid/integrationdiagram"
 	"github.com/anz-bank/sysl/pkg/parse"
 	"github.com/anz-bank/sysl/pkg/sysl"
 	"github.com/anz-bank/sysl/pkg/syslutil"
@@ -34,6 +35,8 @@ type inScenario struct {
 	View   string     `json:"view"` // plain | clustered | epa
 	Text   bool       `json:"text"`
 	Views  []inView   `json:"views"` // further views of the same project (generated in the same run)
+	// Mermaid: also run the Mermaid integration generator on the model
+	Mermaid bool `json:"mermaid"`
 }
 
 type inView struct {
@@ -191,6 +194,47 @@ func inRun(m *sysl.Module, sc inScenario) inResult {
 	}
 }
 
+var reMermaidArrow = regexp.MustCompile(`^\s*\S+\["(.*)"\] --> \S+\["(.*)"\]\s*$`)
+
+// inMermaid runs the Mermaid integration generator (no views: the whole model, or what one application reaches)
+// and reads the arrows back.  kind is "full" or the name of the start application.
+func inMermaid(m *sysl.Module, kind string) tr.Ev {
+	ev := tr.Ev{"e": "mermaid", "kind": kind, "ok": false, "arrows": [][]string{}}
+	ch := make(chan struct{}, 1)
+	go func() {
+		defer func() {
+			if p := recover(); p != nil {
+				ev["msg"] = "panic: " + fmt.Sprint(p)
+			}
+			ch <- struct{}{}
+		}()
+		var text string
+		var err error
+		if kind == "full" {
+			text, err = mermaidints.GenerateFullIntegrationDiagram(m)
+		} else {
+			text, err = mermaidints.GenerateIntegrationDiagram(m, kind)
+		}
+		if err != nil {
+			ev["msg"] = err.Error()
+			return
+		}
+		arrows := [][]string{}
+		for _, l := range strings.Split(text, "\n") {
+			if mm := reMermaidArrow.FindStringSubmatch(l); mm != nil {
+				arrows = append(arrows, []string{mm[1], mm[2]})
+			}
+		}
+		ev["ok"], ev["arrows"] = true, arrows
+	}()
+	select {
+	case <-ch:
+	case <-time.After(20 * time.Second):
+		ev["msg"] = "timeout"
+	}
+	return ev
+}
+
 func runInts(in, out string, _ []string) error {
 	w, err := tr.NewWriter(out)
 	if err != nil {
@@ -220,6 +264,14 @@ func runInts(in, out string, _ []string) error {
 		if err != nil {
 			w.Emit(tr.Ev{"t": tid(0), "e": "compilefail", "msg": err.Error()})
 			return nil
+		}
+		if sc.Mermaid {
+			// beyond C14: the Mermaid generator of the same diagram kind, judged by the same call relation
+			for _, kind := range append([]string{"full"}, sc.Apps...) {
+				ev := inMermaid(m, kind)
+				ev["t"] = tid(0)
+				w.Emit(ev)
+			}
 		}
 		r := inRun(m, sc)
 		switch {
